@@ -117,13 +117,17 @@ class Env:
         self.build_compiler()
         self.build_runtime()
 
-    def build_overlay_driver(self, name, gofile, pkgdir="internal/verifdrv"):
-        """Compile a Go main package that lives in /verif as if it were /repo/<pkgdir>/main.go."""
+    def build_overlay_driver(self, name, gofile, pkgdir="internal/verifdrv", extra=None):
+        """Compile a Go main package that lives in /verif as if it were /repo/<pkgdir>/main.go.
+        extra: {path relative to /repo: file in /verif} -- further overlay-only files (never written to /repo)."""
         out = os.path.join(self.root, name)
         ov = os.path.join(self.root, name + ".overlay.json")
         target = os.path.join(REPO, pkgdir + "_" + name, "main.go")
+        rep = {target: gofile}
+        for rel, src in (extra or {}).items():
+            rep[os.path.join(REPO, rel)] = src
         with open(ov, "w") as f:
-            json.dump({"Replace": {target: gofile}}, f)
+            json.dump({"Replace": rep}, f)
         r = subprocess.run([GO, "build", "-tags", "verif", "-overlay", ov, "-o", out,
                             "./" + pkgdir + "_" + name], cwd=REPO, env=goenv(),
                            capture_output=True, text=True)
